@@ -8,14 +8,16 @@ so that a change of one solver breaks only its own theorems) and the documented 
                  formula, with points read as elements of `EuclideanSpace ℝ (Fin n)`.
 
 Everything the property files (C13, C09, C07, C08, C20 shares) prove about the code goes through
-these statements.  They are proved by unfolding the generated definitions and rewriting
-`Real.sqrt (… * … + …)` into norms / distances / inner products, so they break — loudly — when
-the traced formula changes.
+these statements.  They are proved by reducing the traced tree with the acceptance conditions (whatever
+their order), rewriting the documented norms / distances / inner products into coordinates and ring
+normalisation inside and outside the square roots (EPV/Lemmas/Bridge/DetonTactics.lean), so they do not
+depend on how the Python writes the formula, and break — loudly — when the traced formula changes.
 -/
 import EPV.Gen.DSDCyl
 import EPV.Spec.Burn
 import EPV.Lemmas.Burn
 import EPV.Tactics
+import EPV.Lemmas.Bridge.DetonTactics
 
 set_option linter.all false
 
@@ -38,8 +40,9 @@ noncomputable def DSDCyl.spec (p : DSDCyl.P) (r : ℝ) : ℝ :=
 theorem dsdcyl_outcome (p : DSDCyl.P) (x y : ℝ) :
     DSDCyl.outcome p x y = .ok ↔
       0 < p.r_1 ∧ 0 < p.r_2 ∧ p.r_1 < p.r_2 ∧ 0 < p.D_CJ_1 ∧ 0 < p.D_CJ_2 ∧ 0 ≤ p.alpha_1 ∧ 0 ≤ p.alpha_2 := by
-  simp only [epv_tree, ite_raise_eq_ok, ite_self]
-  simp only [epv_cond, not_le, not_lt, and_true]
+  simp only [epv_tree, Bridge.Deton.ite_raise_ok, Bridge.Deton.ite_else_raise_ok, ite_self, Bridge.Deton.ok_eq_ok, and_true]
+  simp only [epv_cond, not_le, not_lt]
+  epv_deton_conj_iff
 
 /-- the documented domain is accepted by the constructor -/
 theorem dsdcyl_accepts (p : DSDCyl.P) (h : DSDCyl.Adm p) (x y : ℝ) : DSDCyl.outcome p x y = .ok := by
@@ -51,16 +54,15 @@ theorem dsdcyl_accepts (p : DSDCyl.P) (h : DSDCyl.Adm p) (x y : ℝ) : DSDCyl.ou
 /-- the traced burn time is the documented function of the radius -/
 theorem dsdcyl_eq_spec (p : DSDCyl.P) (x y : ℝ) (h : DSDCyl.outcome p x y = .ok) :
     DSDCyl.burntime p x y = DSDCyl.spec p (Real.sqrt (x * x + y * y)) := by
-  simp only [epv_tree, ite_raise_eq_ok, ite_self] at h
-  obtain ⟨h0, h1, h2, h3, h4, h5, h6, -⟩ := h
-  simp only [epv_tree, if_neg h0, if_neg h1, if_neg h2, if_neg h3, if_neg h4, if_neg h5, if_neg h6]
+  epv_deton_ok_reduce h
   unfold DSDCyl.spec dsd dsdLeg
-  by_cases c7 : DSDCyl.c7 p x y
-  · rw [if_pos c7]; simp only [epv_cond] at c7; rw [if_pos c7]; simp only [epv_leaf]
-  · rw [if_neg c7]; simp only [epv_cond] at c7; rw [if_neg c7]
-    by_cases c8 : DSDCyl.c8 p x y
-    · rw [if_pos c8]; simp only [epv_cond] at c8; rw [if_pos c8]; simp only [epv_leaf]
-    · rw [if_neg c8]; simp only [epv_cond] at c8; rw [if_neg c8]; simp only [epv_leaf]
+  -- the two region tests of the code against the two of the documentation, in whatever order and
+  -- writing (`r < r_1` or `r >= r_1`) the code makes them
+  repeat' epv_deton_bsplit1
+  all_goals (simp only [epv_cond] at *)
+  all_goals first
+    | (simp only [epv_leaf]; epv_deton_nf_eq)
+    | (exfalso; epv_deton_doc_absurd)
 
 theorem dsdcyl_eq_spec_norm (p : DSDCyl.P) (h : DSDCyl.Adm p) (q : E2) :
     DSDCyl.burntime p (q 0) (q 1) = DSDCyl.spec p ‖q‖ := by
@@ -70,21 +72,19 @@ theorem dsdcyl_eq_spec_norm (p : DSDCyl.P) (h : DSDCyl.Adm p) (q : E2) :
 theorem dsdcyl_eq_L8 (p : DSDCyl.P) (h : DSDCyl.Adm p) (x y : ℝ) (h1 : p.r_1 ≤ Real.sqrt (x * x + y * y))
     (h2 : Real.sqrt (x * x + y * y) < p.r_2) : DSDCyl.burntime p x y = DSDCyl.L8.burntime p x y := by
   have hok := dsdcyl_accepts p h x y
-  simp only [epv_tree, ite_raise_eq_ok, ite_self] at hok
-  obtain ⟨h0, h1', h2', h3, h4, h5, h6, -⟩ := hok
-  have c7 : ¬ DSDCyl.c7 p x y := by simp only [epv_cond]; exact not_lt.mpr h1
-  have c8 : DSDCyl.c8 p x y := by simp only [epv_cond]; exact h2
-  simp only [epv_tree, if_neg h0, if_neg h1', if_neg h2', if_neg h3, if_neg h4, if_neg h5, if_neg h6, if_neg c7,
-    if_pos c8]
+  epv_deton_ok_reduce hok
+  have hr := h.hr
+  repeat' epv_deton_bsplit1
+  all_goals (simp only [epv_cond] at *)
+  all_goals first | rfl | (exfalso; epv_deton_doc_absurd)
 
 theorem dsdcyl_eq_L9 (p : DSDCyl.P) (h : DSDCyl.Adm p) (x y : ℝ) (h2 : p.r_2 ≤ Real.sqrt (x * x + y * y)) :
     DSDCyl.burntime p x y = DSDCyl.L9.burntime p x y := by
   have hok := dsdcyl_accepts p h x y
-  simp only [epv_tree, ite_raise_eq_ok, ite_self] at hok
-  obtain ⟨h0, h1', h2', h3, h4, h5, h6, -⟩ := hok
-  have c7 : ¬ DSDCyl.c7 p x y := by simp only [epv_cond]; exact not_lt.mpr (h.hr.le.trans h2)
-  have c8 : ¬ DSDCyl.c8 p x y := by simp only [epv_cond]; exact not_lt.mpr h2
-  simp only [epv_tree, if_neg h0, if_neg h1', if_neg h2', if_neg h3, if_neg h4, if_neg h5, if_neg h6, if_neg c7,
-    if_neg c8]
+  epv_deton_ok_reduce hok
+  have hr := h.hr
+  repeat' epv_deton_bsplit1
+  all_goals (simp only [epv_cond] at *)
+  all_goals first | rfl | (exfalso; epv_deton_doc_absurd)
 
 end EPV.Burn
